@@ -39,8 +39,72 @@ def reader_population(n, seed, ndims=(2, 3), payloads=("random", "special", "ext
             g["nfields"] = [38, 101][(i // 16) % 2]
         f = dict(ref_ratio_extra=rng.choice([0, 0, 1, 3]), trailing_blank=rng.random() < 0.7,
                  close_blank=rng.random() < 0.3, floatfmt=rng.choice(["repr", "17g"]))
-        out.append({"gen": g, "fmt": f})
+        c = {"gen": g, "fmt": f}
+        if i % 16 == 7:       # reached through `<symlinked directory>/../<name>`; every other one with a decoy plotfile
+            c["reach"] = ["link_dotdot_decoy", "link_dotdot"][(i // 16) % 2]      # where the path collapses lexically
+        if i % 16 == 15:      # binary files kept in a store under other names and linked into the level directories
+            c["store"] = ["files", "files+levels"][(i // 16) % 2]
+        out.append(c)
     return out
+
+
+def add_reach_store(cs, period=11):
+    """mark some cases of a list (those built by build() from a 'gen' entry): the plotfile is reached through
+    `<symlinked directory>/../<name>` (with / without a decoy where the path collapses lexically), or keeps its
+    binary files in a store, linked into the level directories (and the level directories linked too)"""
+    k = 0
+    for c in cs:
+        if not isinstance(c, dict) or "gen" not in c or c.get("reach") or c.get("store") or c.get("deepen"):
+            continue
+        if k % period == 4:
+            c["reach"] = ["link_dotdot_decoy", "link_dotdot"][(k // period) % 2]
+        elif k % period == 9:
+            c["store"] = ["files", "files+levels"][(k // period) % 2]
+        k += 1
+    return cs
+
+
+def to_store(path, level_links=False):
+    """Move the binary files of a written plotfile into a store and link them back under the names the level
+    headers list. The link targets carry *other* names (the names of the level's files, rotated) in
+    directories named like the level; with level_links the level directories themselves become links to
+    differently named directories. What the plotfile states is unchanged: every listed name opens the
+    same bytes as before."""
+    store = path + "_store"
+    for lvd in sorted(d for d in os.listdir(path) if d.startswith("Level_")):
+        phys = os.path.join(path, lvd)
+        if level_links:
+            bulk = os.path.join(path + "_bulk", "run7_" + lvd.lower().replace("_", ""))
+            os.makedirs(os.path.dirname(bulk), exist_ok=True)
+            os.rename(phys, bulk)
+            os.symlink(bulk, phys)
+            phys = bulk
+        files = sorted(f for f in os.listdir(phys) if "_D_" in f)      # Cell_D_* (plotfiles), state_D_* ... (checkpoints)
+        os.makedirs(os.path.join(store, lvd))
+        for k, f in enumerate(files):
+            tgt = os.path.join(store, lvd, files[(k + 1) % len(files)] if len(files) > 1 else "part_" + f)
+            os.rename(os.path.join(phys, f), tgt)
+        for k, f in enumerate(files):
+            tgt = os.path.join(store, lvd, files[(k + 1) % len(files)] if len(files) > 1 else "part_" + f)
+            os.symlink(tgt, os.path.join(phys, f))
+    return path
+
+
+def reach_link_dotdot(work, path, decoy=None, fmt=None):
+    """Move a written plotfile to <work>/archive/run/<name> and return the path <work>/runs/latest/../<name>,
+    where `latest` is a symbolic link to <work>/archive/run/out: the operating system resolves the link
+    first (-> archive/run/<name>), a lexical normalisation collapses the path to <work>/runs/<name>. There a
+    decoy (another plotfile of that name, same mesh, other data and time) is written when a model is given."""
+    name = os.path.basename(path)
+    real_parent = os.path.join(work, "archive", "run")
+    os.makedirs(os.path.join(real_parent, "out"), exist_ok=True)
+    os.rename(path, os.path.join(real_parent, name))
+    os.makedirs(os.path.join(work, "runs"), exist_ok=True)
+    if not os.path.islink(os.path.join(work, "runs", "latest")):
+        os.symlink(os.path.join("..", "archive", "run", "out"), os.path.join(work, "runs", "latest"))
+    if decoy is not None:
+        gen.write_plotfile(decoy, os.path.join(work, "runs", name), **(fmt or {}))
+    return os.path.join(work, "runs", "latest", "..", name)
 
 
 def build(case, work, name="plt00010"):
@@ -54,7 +118,19 @@ def build(case, work, name="plt00010"):
     if case.get("poison_covered"):
         m.poisoned_cells = gen.poison_covered(m, case["gen"]["seed"])
     path = os.path.join(work, name)
+    if case.get("store") or case.get("reach"):      # a case may build twice in one directory
+        import shutil
+        for d in (path, path + "_store", path + "_bulk", os.path.join(work, "archive"), os.path.join(work, "runs")):
+            shutil.rmtree(d, ignore_errors=True)
     gen.write_plotfile(m, path, **case.get("fmt", {}))
+    if case.get("store"):
+        to_store(path, level_links="levels" in case["store"])
+    if case.get("reach"):
+        decoy = None
+        if case["reach"].endswith("decoy"):
+            decoy = gen.gen_model(**dict(case["gen"], data_seed=case["gen"]["seed"] + 77))
+            decoy.time = m.time + 1.0 if m.time == m.time and abs(m.time) != float("inf") else 0.5
+        path = reach_link_dotdot(work, path, decoy, case.get("fmt"))
     return m, path
 
 
